@@ -4,6 +4,8 @@ scikit-image's radon and iradon functions fully implemented in Torch.
 Reference: van der Walt, S., et al. (2014). scikit-image: image processing in Python. PeerJ, 2, e453.
 """
 
+import math
+
 import torch
 import torch.nn.functional as F
 
@@ -117,6 +119,13 @@ def iradon_torch(
     if output_size is None:
         output_size = N if circle else int(torch.floor(torch.sqrt(torch.tensor(N**2 / 2.0))))
 
+    if circle:
+        # As scikit-image's _sinogram_circle_to_square: pad the detector to the image diagonal
+        diagonal = int(math.ceil(math.sqrt(2) * N))
+        pad_before = diagonal // 2 - N // 2
+        sinograms = F.pad(sinograms, (pad_before, diagonal - N - pad_before))
+        N = diagonal
+
     # Padding for FFT
     padded_size = max(
         64, int(2 ** torch.ceil(torch.log2(torch.tensor(2 * N, dtype=torch.float32))))
@@ -195,7 +204,7 @@ def get_fourier_filter_torch(size, filter_name="ramp", device=None, dtype=torch.
         omega = torch.pi * torch.fft.fftfreq(size, device=device)[1:]
         fourier_filter[1:] *= torch.sin(omega) / omega
     elif filter_name == "cosine":
-        freq = torch.linspace(0, torch.pi, steps=size + 1, device=device)[:-1]  # endpoint=False
+        freq = torch.linspace(0, torch.pi, steps=size + 1, device=device)[:-1]
         fourier_filter *= torch.fft.fftshift(torch.sin(freq))
     elif filter_name == "hamming":
         hamming = torch.hamming_window(size, periodic=False, dtype=dtype, device=device)
